@@ -1034,3 +1034,84 @@ class Streams:
                 sub.update(s2)
             return sub
         return None
+
+
+# =========================================================================== backward slices
+def _scoped_walk(node, bound=frozenset()):
+    """(node, names bound by enclosing comprehensions / lambdas) for every node below `node`"""
+    yield node, bound
+    if isinstance(node, (ast.ListComp, ast.SetComp, ast.GeneratorExp, ast.DictComp)):
+        inner = set(bound)
+        for k, g in enumerate(node.generators):
+            # the iterable of a generator sees the targets of the generators before it only
+            yield from _scoped_walk(g.iter, frozenset(inner) if k else bound)
+            inner |= {n.id for n in ast.walk(g.target) if isinstance(n, ast.Name)}
+            for c in g.ifs:
+                yield from _scoped_walk(c, frozenset(inner))
+        for part in ([node.key, node.value] if isinstance(node, ast.DictComp) else [node.elt]):
+            yield from _scoped_walk(part, frozenset(inner))
+        return
+    if isinstance(node, ast.Lambda):
+        a = node.args
+        inner = set(bound) | {x.arg for x in a.args + a.kwonlyargs + a.posonlyargs}
+        for x in (a.vararg, a.kwarg):
+            if x is not None:
+                inner.add(x.arg)
+        for d in list(a.defaults) + [d for d in a.kw_defaults if d is not None]:
+            yield from _scoped_walk(d, bound)
+        yield from _scoped_walk(node.body, frozenset(inner))
+        return
+    for c in ast.iter_child_nodes(node):
+        yield from _scoped_walk(c, bound)
+
+
+def _loads(node):
+    """names of the enclosing function scope that the statement reads"""
+    out = set()
+    for n, bound in _scoped_walk(node):
+        if isinstance(n, ast.Name) and isinstance(n.ctx, ast.Load) and n.id not in bound:
+            out.add(n.id)
+    return out
+
+
+def _base_name(n, bound):
+    while isinstance(n, (ast.Subscript, ast.Attribute)):
+        n = n.value
+    return n.id if isinstance(n, ast.Name) and n.id not in bound else None
+
+
+def _touches(st, name):
+    """may the statement (re)bind the name or change the object it is bound to?"""
+    for n, bound in _scoped_walk(st):
+        if isinstance(n, ast.Name) and n.id == name and isinstance(n.ctx, (ast.Store, ast.Del)) and name not in bound:
+            return True
+        if isinstance(n, (ast.Subscript, ast.Attribute)) and isinstance(n.ctx, (ast.Store, ast.Del)) \
+                and _base_name(n.value, bound) == name:
+            return True
+        if isinstance(n, ast.Call) and isinstance(n.func, ast.Attribute) and _base_name(n.func.value, bound) == name:
+            if isinstance(st, ast.Expr) and st.value is n:
+                return True         # `name.method(...)` as a statement: called for its effect
+            if n.func.attr in ("append", "extend", "insert", "pop", "remove", "clear", "update", "add", "discard",
+                               "setdefault", "sort", "reverse", "popitem"):
+                return True
+    return False
+
+
+def backward_slice(stmts, names):
+    """The statements of the list (whole top-level statements, in order) that can influence the value of the
+    names at the end of the list (flow-insensitive closure: a chosen statement makes every name it reads
+    relevant)."""
+    relevant = set(names)
+    chosen = set()
+    changed = True
+    while changed:
+        changed = False
+        for i, st in enumerate(stmts):
+            if i in chosen:
+                continue
+            if any(_touches(st, n) for n in relevant):
+                chosen.add(i)
+                new = _loads(st) - relevant
+                relevant |= new
+                changed = True
+    return [stmts[i] for i in sorted(chosen)], relevant
